@@ -10,6 +10,21 @@ CHECKS = {
  "C02": ("reference model: ground congruence closure (sound for any pool) vs eq / dropped slots / symmetries / totals after every union of generated histories",
          "every equality, redundancy and symmetry the ground closure derives must be reported right after the union returns",
          "the ground closure only derives consequences of the asserted equations; bounded term size / names"),
+ "C03": ("semantic model oracle: every e-node of every class evaluated in random environments of F_5 (summation and let binders) against the class's Bellman-Ford-cheapest e-node, root against direct evaluation; rule pool self-validated at the model level",
+         "generated start terms x rule subsets x iterations x substitution method",
+         "rule pool valid in the model (self-check); wrong e-node missed with probability 5^-8 per class"),
+ "C04": ("constructed expectation: planted instance L.sigma.rho inside a context (optionally only present up to equality through balanced pre-unions) must yield R.sigma.rho represented and equal after one apply_rewrites",
+         "generated patterns, substitutions, renamings, contexts and pre-unions within the scope the property states",
+         "cases where a class has a redundant slot are counted out of scope (as the property states)"),
+ "C05": ("validity predicate: every substitution returned by ematch_all / multi_ematch is total, its instance looks up without inserting, multi-pattern equations hold, fingerprint unchanged",
+         "random patterns and multi-patterns against reachable e-graphs",
+         "none beyond bounded sizes"),
+ "C06": ("reference implementation (Bellman-Ford over eg.enodes) + round-trip: membership, recomputed cost = reported best cost = reference minimum, slot hygiene, totality; three strictly monotone cost functions",
+         "every live class, every handle and renamed invocations, after every union/rewrite of generated histories",
+         "cost functions strictly monotone"),
+ "C07": ("independent proof checker on terms: every node of every explanation DAG re-checked (reflexivity, symmetry, transitivity with solved renamings, congruence under binders, leaves against the asserted equations and rules)",
+         "every equal pair of inserted terms of generated justified histories is explained and re-checked",
+         "premises up to renamings injective on each side (the property's notion); known finding D18 tolerated at leaf level"),
  "C08": ("stateful property-based testing: invariants (check(), lookup/enodes coherence, slot coverage, find idempotence) after every operation of generated operation sequences over all test languages, in the default and the checks build",
          "no panic and a consistent structure after every single operation of generated sequences (add, add_syn, union, rewrite, match, extract)",
          "well-formed inputs only; explanations+checks configuration not covered (DESIGN 7)"),
@@ -28,6 +43,12 @@ CHECKS = {
  "C13": ("history invariants: recorded equalities persist, old handles usable (find/eq/extract), slot sets shrink, progress lexicographically monotone, after every operation of long mixed histories",
          "stateful exploration of long histories with invariants over everything recorded earlier",
          "none beyond bounded sizes"),
+ "C14": ("fixpoint equation + independent least fixpoint: datum = join of make over e-nodes, equal handles share data, min-size = Bellman-Ford = Extractor best cost, constants = independent LFP = model value, modify adds the numeral",
+         "three analyses (min-size, min-depth, constant folding with modify) after every operation of generated histories",
+         "only model-valid unions / rules for the constant analysis"),
+ "C15": ("independent fingerprint (node count, eq-partition, slot and symmetry counts through eq) around apply_rewrites / Runner / run_eqsat; stop reasons checked against the final state, saturation re-checked by matching every rule",
+         "generated start e-graphs x rule subsets x iteration / node limits x failing hooks",
+         "TimeLimit never asserted about"),
  "C16": ("reference canonicaliser on a model AST + algebraic shape laws + occurrence partition + syntax round-trip; exhaustive over small slot assignments, random beyond",
          "all node variants of five derived languages with repeated and shadowing names",
          "child invocations are bijective maps"),
@@ -42,6 +63,9 @@ CHECKS = {
          "operations with checks-mode preconditions only called inside them"),
 }
 
+CHECKS["C20"] = ("replay determinism: byte-identical transcripts across fresh threads (sequential and concurrent with interfering threads) and across separate processes (stdout incl. dump)",
+         "generated histories replayed 3+3 times in threads and twice in processes",
+         "interleavings sampled by stress; known finding D17 (Symbol intern index) routed")
 NOT_YET = {}
 
 def main():
@@ -57,7 +81,7 @@ def main():
                 "quick_cmd": f"bin/check {pid} quick",
                 "thorough_cmd": f"bin/check {pid} thorough",
                 "evidence_file": f"/verif/evidence/{pid}.json",
-                "replay_cmd_template": "harness/target/bins/sev-default replay {path}",
+                "replay_cmd_template": "bin/replay {path}",
                 "engine": "sev",
                 "level_claimed": {"category": "exploration", "text": text, "design_ref": f"DESIGN.md section 3, {pid}"},
                 "level_note": note,
